@@ -181,8 +181,8 @@ def build_lib(flavor="asan", extra_defs=(), tag=""):
         bad = [(s, e) for rc, s, e, _ in res if rc != 0]
         if bad:
             raise BuildError("C build failed: " + bad[0][0] + "\n" + bad[0][1][-3000:])
-        sh(["ar", "rcs", lib + ".tmp"] + [o for _, _, _, o in res], check=True)
-        os.rename(lib + ".tmp", lib)
+        sh(["ar", "rcs", lib + (".tmp%d" % os.getpid())] + [o for _, _, _, o in res], check=True)
+        os.rename(lib + (".tmp%d" % os.getpid()), lib)
     return d
 
 
@@ -201,11 +201,11 @@ def build_tools(flavor="asan"):
             if not os.path.exists(exe):
                 cmd = [FLAVORS[flavor][0]] + cflags(flavor) + ["-I" + os.path.join(REPO, "tools"),
                        os.path.join(REPO, "tools", t + "_tool.c"), os.path.join(REPO, "tools", "attgetopt.c"),
-                       os.path.join(d, "libwbxml.a"), "-lexpat", "-o", exe + ".tmp"]
+                       os.path.join(d, "libwbxml.a"), "-lexpat", "-o", exe + (".tmp%d" % os.getpid())]
                 rc, o, e = sh(cmd)
                 if rc != 0:
                     raise BuildError("tool build failed: %s\n%s" % (t, e[-3000:]))
-                os.rename(exe + ".tmp", exe)
+                os.rename(exe + (".tmp%d" % os.getpid()), exe)
             out[t] = exe
     return out
 
@@ -229,11 +229,11 @@ def build_harness(name, flavor="asan", sources=None, extra=(), libs=("-lexpat",)
         cc = FLAVORS[flavor][0]
         flags = FLAVORS[flavor][1:] + ["-I" + REPO, "-I" + os.path.join(d, "inc"), "-I" + os.path.join(REPO, "src"),
                                        "-I" + os.path.join(VERIF, "harness")] + list(extra)
-        cmd = [cc] + flags + srcs + ([os.path.join(d, "libwbxml.a")] if link_lib else []) + list(libs) + ["-o", exe + ".tmp"]
+        cmd = [cc] + flags + srcs + ([os.path.join(d, "libwbxml.a")] if link_lib else []) + list(libs) + ["-o", exe + (".tmp%d" % os.getpid())]
         rc, out, err = sh(cmd)
         if rc != 0:
             raise BuildError("harness build failed: %s\n%s" % (name, err[-4000:]))
-        os.rename(exe + ".tmp", exe)
+        os.rename(exe + (".tmp%d" % os.getpid()), exe)
     return exe
 
 
@@ -272,9 +272,9 @@ def write_if_changed(path, txt):
     old = open(path).read() if os.path.exists(path) else None
     if old != txt:
         os.makedirs(os.path.dirname(path), exist_ok=True)
-        with open(path + ".tmp", "w") as f:
+        with open(path + (".tmp%d" % os.getpid()), "w") as f:
             f.write(txt)
-        os.rename(path + ".tmp", path)
+        os.rename(path + (".tmp%d" % os.getpid()), path)
         return True
     return False
 
@@ -527,9 +527,9 @@ class Ctx:
         evdir = os.environ.get("VERIF_EVIDENCE_DIR") or os.path.join(VERIF, "evidence")
         os.makedirs(evdir, exist_ok=True)
         p = os.path.join(evdir, self.pid + ".json")
-        with open(p + ".tmp", "w") as f:
+        with open(p + (".tmp%d" % os.getpid()), "w") as f:
             json.dump(ev, f, indent=1, default=_jd)
-        os.rename(p + ".tmp", p)
+        os.rename(p + (".tmp%d" % os.getpid()), p)
         return 1 if self.violations else 0
 
 
